@@ -117,6 +117,36 @@ def gen_errors(problems):
         problems.append('traceback slice in api._attach_error_metadata not found')
         dropped = 0
 
+    # does ErrorMetadataBase.to_exception flag the re-created exception with `ag_pass_through`?  does
+    # api._attach_error_metadata honour that flag (`if hasattr(e, 'ag_pass_through'): return`)?
+    te = _find_method(eu, 'ErrorMetadataBase', 'to_exception')
+    sets_pass = None
+    if te is None:
+        problems.append('error_utils.ErrorMetadataBase.to_exception not found')
+    else:
+        sets_pass = False
+        attrs_set = []
+        for st in ast.walk(te):
+            if isinstance(st, (ast.Assign, ast.AugAssign, ast.AnnAssign)):
+                tg = st.targets if isinstance(st, ast.Assign) else [st.target]
+                for t in tg:
+                    if isinstance(t, ast.Attribute):
+                        attrs_set.append(t.attr)
+            if isinstance(st, ast.Call) and _name_of(st.func) == 'setattr' and len(st.args) >= 2 and isinstance(st.args[1], ast.Constant):
+                attrs_set.append(st.args[1].value)
+        sets_pass = 'ag_pass_through' in attrs_set
+        unknown = [a for a in attrs_set if a not in ('__suppress_context__', 'ag_error_metadata', 'ag_pass_through')]
+        if unknown:
+            problems.append('ErrorMetadataBase.to_exception sets attributes the model does not know: %r' % unknown)
+    honours = False
+    for node in api.body:
+        if isinstance(node, ast.FunctionDef) and node.name == '_attach_error_metadata':
+            for st in node.body:
+                if isinstance(st, ast.If) and isinstance(st.test, ast.Call) and _name_of(st.test.func) == 'hasattr' \
+                        and len(st.test.args) == 2 and isinstance(st.test.args[1], ast.Constant) \
+                        and st.test.args[1].value == 'ag_pass_through' and len(st.body) == 1 and isinstance(st.body[0], ast.Return):
+                    honours = True
+
     L = []
     L.append('/- GENERATED by tools/extract.py (extract_errors.py) from malt/pyct/error_utils.py and malt/impl/api.py — do not edit. -/')
     L.append('namespace Malt.Gen.Errors')
@@ -136,6 +166,12 @@ def gen_errors(problems):
     L.append('')
     L.append('/-- Number of outermost traceback entries `_attach_error_metadata` drops (`extract_tb(...)[n:]`). -/')
     L.append('def attachDropsFrames : Nat := %d' % dropped)
+    L.append('')
+    L.append('/-- Does `ErrorMetadataBase.to_exception` set `ag_pass_through` on the exception it creates? -/')
+    L.append('def toExceptionSetsPassThrough : Bool := ' + ('true' if sets_pass else 'false'))
+    L.append('')
+    L.append('/-- Does `api._attach_error_metadata` return at once for an exception carrying `ag_pass_through`? -/')
+    L.append('def attachHonoursPassThrough : Bool := ' + ('true' if honours else 'false'))
     L.append('')
     L.append('end Malt.Gen.Errors')
     return '\n'.join(L) + '\n'
